@@ -18,15 +18,28 @@ KINDS = ["resp", "notif", "req", "junk", "notmsg", "empty"]
 def obligations(tier, ctx):
     obs = []
     LB = 3 if tier == "quick" else 5
+    def split(name, L, ncuts, params0, call, fam):
+        """long inputs: cut positions concrete per obligation (shares the paths between workers), content symbolic"""
+        if L <= 3:
+            cuts = ["i", "j"][:ncuts]
+            obs.append(Ob(name=f"{name}_L{L}", params=params0 + [(c, "int") for c in cuts],
+                          pre=[f"len({params0[0][0]}) == {L}", ("0 <= i <= j <= %d" % L) if ncuts == 2 else ("0 <= i <= %d" % L)] + (["H.valid_utf8(b)"] if params0[0][1] == "bytes" else []),
+                          call=call.format(i="i", j="j"), backend="P", timeout=400, family=fam))
+            return
+        import itertools
+        positions = [(i,) for i in range(L + 1)] if ncuts == 1 else [(i, j) for i in range(L + 1) for j in range(i, L + 1)]
+        for pos in positions:
+            i, j = pos[0], (pos[1] if ncuts == 2 else None)
+            obs.append(Ob(name=f"{name}_L{L}_c{'_'.join(map(str, pos))}", params=params0,
+                          pre=[f"len({params0[0][0]}) == {L}"] + (["H.valid_utf8(b)"] if params0[0][1] == "bytes" else []),
+                          call=call.format(i=i, j=j), backend="P", timeout=600, family=fam))
+
     for L in range(1, LB + 1):
-        obs.append(Ob(name=f"bytes_L{L}", params=[("b", "bytes"), ("i", "int")], pre=[f"len(b) == {L}", "0 <= i <= len(b)", "H.valid_utf8(b)"],
-                      call="H.bytes_cut(b, i)", backend="P", timeout=300, family="(a) bytes, one cut"))
+        split("bytes", L, 1, [("b", "bytes")], "H.bytes_cut(b, {i})", "(a) bytes, one cut")
     for L in range(2, (2 if tier == "quick" else 4) + 1):
-        obs.append(Ob(name=f"bytes2_L{L}", params=[("b", "bytes"), ("i", "int"), ("j", "int")], pre=[f"len(b) == {L}", "0 <= i <= j <= len(b)", "H.valid_utf8(b)"],
-                      call="H.bytes_cut2(b, i, j)", backend="P", timeout=400, family="(a) bytes, two cuts"))
+        split("bytes2", L, 2, [("b", "bytes")], "H.bytes_cut2(b, {i}, {j})", "(a) bytes, two cuts")
     for L in range(1, (2 if tier == "quick" else 4) + 1):
-        obs.append(Ob(name=f"text_L{L}", params=[("s", "str"), ("i", "int"), ("j", "int")], pre=[f"len(s) == {L}", "0 <= i <= j <= len(s)"],
-                      call="H.text_cut(s, i, j)", backend="P", timeout=400, family="(b) text, two cuts"))
+        split("text", L, 2, [("s", "str")], "H.text_cut(s, {i}, {j})", "(b) text, two cuts")
     tuples = [("resp",), ("notif",), ("junk", "resp"), ("notmsg", "req")] + ([("notif", "resp"), ("resp", "notmsg", "notif"), ("empty", "req", "junk")] if tier != "quick" else [])
     if tier != "quick":
         tuples += [t for t in itertools.product(KINDS, repeat=2) if t not in tuples][:20] + [("junk", "junk", "resp"), ("notif", "notif", "notif"), ("array_junk", "resp")]
